@@ -1988,6 +1988,13 @@ impl ProtocolState {
                 if let Some(operation) = operation_option {
                     if let MqttPacket::Publish(publish) = &*operation.packet {
                         if publish.qos == QualityOfService::ExactlyOnce {
+                            // a PUBREC for a delivery whose PUBREC has already been received: the PUBREL is queued, being
+                            // written or sent, and must not be queued (and sent) a second time on this connection
+                            if operation.qos2_pubrel.is_some() {
+                                error!("[{} ms] handle_pubrec - received a second pubrec with packet id {} for operation {}", self.elapsed_time_ms, packet_id, operation_id);
+                                return Err(GneissError::new_protocol_error("received a second pubrec for the same qos2 delivery"));
+                            }
+
                             if pubrec.reason_code as u8 >= 128 {
                                 if self.current_operation == Some(*operation_id) || self.high_priority_operation_queue.contains(operation_id) {
                                     error!("[{} ms] handle_pubrec - received a failing pubrec with packet id {} while the pubrel of operation {} is waiting to be or being written", self.elapsed_time_ms, packet_id, operation_id);
